@@ -560,6 +560,53 @@ theorem partsBody_plain (raw : Bool) (d1 : List Nat) (h : ∀ t, d1 ≠ 232 :: t
     simp only [hmatch]
     simp
 
+/-- `decode_parts` after the macro test, FNC1 test resolved -/
+def partsFinish (mac fnc1 : Bool) (r : R DSt) : R Parts :=
+  match r with
+  | .error e => .error e
+  | .ok st =>
+    if mac then
+      .ok { output := st.out ++ macroTrail,
+            ecis := if st.ecis.isEmpty then st.ecis else st.ecis ++ [(st.out.length, 26)], fnc1 := fnc1 }
+    else .ok { output := st.out, ecis := st.ecis, fnc1 := fnc1 }
+
+theorem partsBody_no232 (raw : Bool) (out0 d1 : List Nat) (e1 : Nat) (mac : Bool) (h : ∀ t, d1 ≠ 232 :: t) :
+    partsBody raw out0 d1 e1 mac =
+      partsFinish mac false (mainLoop (2 * d1.length + 2) .ascii
+        { rest := d1, eaten := e1, out := out0, ecis := if !raw && mac then [(0, 26), (out0.length, 0)] else [] }) := by
+  unfold partsBody partsFinish
+  match d1, h with
+  | [], _ => simp
+  | c :: t, h =>
+    have hc : c ≠ 232 := fun hc => h t (by rw [hc])
+    have hmatch : (match c :: t with
+        | 232 :: t' => (true, t', e1 + 1)
+        | _ => (false, c :: t, e1) : Bool × List Nat × Nat) = (false, c :: t, e1) := by
+      split
+      · rename_i heq; injection heq with heq; exact absurd heq hc
+      · rfl
+    simp only [hmatch]
+
+theorem partsBody_232 (raw : Bool) (out0 t : List Nat) (e1 : Nat) (mac : Bool) :
+    partsBody raw out0 (232 :: t) e1 mac =
+      partsFinish mac true (mainLoop (2 * t.length + 2) .ascii
+        { rest := t, eaten := e1 + 1, out := out0, ecis := if !raw && mac then [(0, 26), (out0.length, 0)] else [] }) := by
+  unfold partsBody partsFinish
+  simp only []
+
+theorem decodeParts_236 (t : List Nat) (raw : Bool) :
+    decodeParts (236 :: t) raw = partsBody raw macroHead05 t 1 true := rfl
+
+theorem decodeParts_237 (t : List Nat) (raw : Bool) :
+    decodeParts (237 :: t) raw = partsBody raw macroHead06 t 1 true := rfl
+
+theorem decodeParts_other (data : List Nat) (raw : Bool) (h : ∀ t, data ≠ 236 :: t ∧ data ≠ 237 :: t) :
+    decodeParts data raw = partsBody raw [] data 0 false := by
+  rcases decodeParts_eq data raw with ⟨t, ht, _⟩ | ⟨t, ht, _⟩ | e
+  · exact absurd ht (h t).1
+  · exact absurd ht (h t).2
+  · exact e
+
 theorem partsBody_inv (raw : Bool) (out0 d1 : List Nat) (e1 : Nat) (mac : Bool) (p : Parts)
     (hd1 : ByteList d1) (ho : ByteList out0) (h : partsBody raw out0 d1 e1 mac = .ok p) : OutInv p.output p.ecis := by
   have hinv0 : OutInv out0 (if (!raw && mac) = true then [(0, 26), (out0.length, 0)] else []) := by
